@@ -97,14 +97,14 @@ class Ctx:
     # ------------------------------------------------------------------ streams
     def stream(self, name, lines, profile="release", spec_mode="eq", exhaustive=False,
                nontrivial=lambda tag: tag not in ("x", "c", "-", ""), chunk_timeout=300, per_line_timeout=5.0,
-               impl_post=None, judge=None):
+               impl_post=None, judge=None, chunk_lines=500):
         """run lines on implementation and model; compare impl/model (correspondence) and impl/spec (oracle)."""
         if not lines:
             return [], []
         if profile not in self.profiles_built:
             return [], []
-        impl = run.run_lines(run.harness_bin(profile), lines, "h-%s-%s" % (self.pid, name), chunk_timeout, per_line_timeout)
-        mod = run.run_lines(run.drv_bin(), lines, "d-%s-%s" % (self.pid, name), chunk_timeout, 30.0)
+        impl = run.run_lines(run.harness_bin(profile), lines, "h-%s-%s" % (self.pid, name), chunk_timeout, per_line_timeout, chunk_lines=chunk_lines)
+        mod = run.run_lines(run.drv_bin(), lines, "d-%s-%s" % (self.pid, name), chunk_timeout, max(30.0, per_line_timeout), chunk_lines=chunk_lines)
         st = self.streams.setdefault(name, {"lines": 0, "disagree": 0, "oracle_fail": 0, "profile": profile})
         st["lines"] += len(lines)
         self.evals += len(lines)
